@@ -42,9 +42,36 @@ var numPalette = []float64{1, 0, 2, 10, -1, 1.5}
 var rareNums = []float64{math.Copysign(0, -1), 9007199254740993, 1e21, 1e-7, -1e308, 3}
 var strPalette = []string{"a", "b", "1", "x", ""}
 
+type foreignStruct struct{ A int }
+
+// foreign returns a value that encoding/json never produces for interface{}: the library must
+// treat it as an opaque leaf (and must not write it back changed).
+func foreign() interface{} {
+	switch rn(8) {
+	case 0:
+		return 3
+	case 1:
+		return []string{"a", "b"}
+	case 2:
+		return []float64{1, 2.5}
+	case 3:
+		return []int{1, 2, 3}
+	case 4:
+		return map[string]int{"a": 1}
+	case 5:
+		return []map[string]interface{}{{"a": 1.0}, {"a": 2.0}}
+	case 6:
+		return foreignStruct{A: 1}
+	}
+	return float32(1.5)
+}
+
 func (d docGen) leaf() interface{} {
 	if rn(40) == 39 {
 		return d.num(rareNums[rn(len(rareNums))])
+	}
+	if rn(60) == 59 {
+		return foreign()
 	}
 	switch rn(8) {
 	case 0, 1, 2:
@@ -150,6 +177,9 @@ var bigSizes = []int{15, 16, 17, 31, 32, 33, 64, 65, 127, 128, 129, 130, 200, 25
 // bigDoc builds a wide document: an array (or an object holding one) with many elements.
 func (d docGen) bigDoc() interface{} {
 	n := bigSizes[rn(len(bigSizes))]
+	if rn(12) == 11 {
+		n = []int{1023, 1024, 1025, 2049}[rn(4)] // thresholds such as "1024 or more members"
+	}
 	a := make([]interface{}, n)
 	kind := rn(3)
 	for i := range a {
@@ -988,11 +1018,23 @@ func genInternalPanicPath(funcs uint32) *PathSpec {
 }
 
 // genModelPath renders a path inside the families whose order the property spells out.
-func genModelPath(trap bool) *PathSpec {
+func genModelPath(trap bool) *PathSpec { return genModelPathFor(nil, trap) }
+
+// genModelPathFor: with a document, the steps mostly fit the node selected so far (an existing
+// key of an object, index unions on arrays).
+func genModelPathFor(doc interface{}, trap bool) *PathSpec {
 	spec := &PathSpec{}
 	s := "$"
 	n := 1 + rn(3)
+	if doc != nil && chance(30) {
+		n += rn(3)
+	}
+	cur := doc
 	key := func() string {
+		if m, ok := cur.(map[string]interface{}); ok && len(m) > 0 && chance(85) {
+			ks := sortedKeys(m)
+			return ks[rn(len(ks))]
+		}
 		if trap && chance(50) {
 			return pick(trapKeys)
 		}
@@ -1001,6 +1043,19 @@ func genModelPath(trap bool) *PathSpec {
 	steps := []MStep{}
 	for i := 0; i < n; i++ {
 		k := rn(9)
+		if cur != nil && chance(80) {
+			// fit the step kind to the node: names and multi-names on objects, index unions
+			// on arrays, wildcards and the always-true filter on both
+			switch cur.(type) {
+			case map[string]interface{}:
+				k = []int{0, 1, 0, 2, 4, 5, 8}[rn(7)]
+			case []interface{}:
+				k = []int{3, 3, 3, 2, 5, 8}[rn(6)]
+			default:
+				n = i
+				continue
+			}
+		}
 		rec := false
 		if k == 8 {
 			rec = true
@@ -1046,6 +1101,9 @@ func genModelPath(trap bool) *PathSpec {
 					continue
 				}
 				ix[j] = rn(4) - 1
+				if a, ok := cur.([]interface{}); ok && len(a) > 0 && chance(70) {
+					ix[j] = rn(2*len(a)) - len(a) // any valid index of either sign
+				}
 				if chance(10) {
 					ix[j] = 60 + rn(10) // wide arrays
 				}
@@ -1081,6 +1139,14 @@ func genModelPath(trap bool) *PathSpec {
 		}
 		steps = append(steps, st)
 		s += t
+		// advance the cursor to one of the nodes selected so far
+		if cur != nil {
+			if sel := modelEval(steps, doc); len(sel) > 0 {
+				cur = sel[rn(len(sel))]
+			} else {
+				cur = nil
+			}
+		}
 	}
 	spec.Text, spec.Prefix, spec.Model = s, s, steps
 	return spec
